@@ -120,6 +120,7 @@ class Gen:
         self.depth = depth
         self.matlab_safe = matlab_safe
         self.classes = []      # qualified class names declared so far (ns tuple, name)
+        self.in_class = False
 
     def pick(self, xs):
         return self.r.choice(xs)
@@ -152,7 +153,8 @@ class Gen:
             return T(b, (), (), const and b != 'void', '' if b == 'void' else self.pick(['', '', '&']))
         if r < 0.8 or depth <= 0 or not templated_ok:
             ns = tuple(self.r.sample(NS_POOL, self.r.randint(0, 2)))
-            return T(self.pick(CLASS_NAMES + ['This'] if tparams else CLASS_NAMES), ns if self.r.random() < 0.7 else (), (), const, mark)
+            nm = self.pick(CLASS_NAMES + ['This'] if (tparams and self.in_class) else CLASS_NAMES)
+            return T(nm, (ns if self.r.random() < 0.7 else ()) if nm != 'This' else (), (), const, mark)
         ns = tuple(self.r.sample(NS_POOL, self.r.randint(0, 1)))
         n = self.r.randint(1, 2)
         targs = [self.type(depth - 1, tparams, templated_ok=True) for _ in range(n)]
@@ -173,9 +175,10 @@ class Gen:
             return ('P', self.type(1, tparams, templated_ok=False), self.type(1, tparams, templated_ok=False))
         return self.type(tparams=tparams, allow_void=True)
 
-    def template(self, with_lists=True, maxp=2):
-        n = self.r.randint(1, maxp)
-        ps = self.r.sample(TPARAMS, n)
+    def template(self, with_lists=True, maxp=2, avoid=()):
+        pool = [p for p in TPARAMS if p not in avoid]
+        n = self.r.randint(1, min(maxp, len(pool)))
+        ps = self.r.sample(pool, n)
         out = []
         for p in ps:
             if with_lists:
@@ -187,6 +190,13 @@ class Gen:
         return ('TPL', tuple(out))
 
     def klass(self, name, ns_path):
+        self.in_class = True
+        try:
+            return self._klass(name, ns_path)
+        finally:
+            self.in_class = False
+
+    def _klass(self, name, ns_path):
         tpl = None
         r = self.r.random()
         if r < 0.3:
@@ -202,15 +212,15 @@ class Gen:
                 base = T('Base', ('gtsam',))
         members = []
         for _ in range(self.r.randint(0, 2)):
-            mt = self.template(True, 1) if self.r.random() < 0.15 else None
+            mt = self.template(True, 1, tparams) if self.r.random() < 0.15 else None
             tp = tparams + (tuple(p for p, _ in mt[1]) if mt else ())
             members.append(('ctor', mt, name, self.args(tp)))
         for _ in range(self.r.randint(0, 3)):
-            mt = self.template(True, 1) if self.r.random() < 0.2 else None
+            mt = self.template(True, 1, tparams) if self.r.random() < 0.2 else None
             tp = tparams + (tuple(p for p, _ in mt[1]) if mt else ())
             members.append(('method', mt, self.ret(tp), self.pick(METHOD_NAMES), self.args(tp), self.r.random() < 0.5))
         for _ in range(self.r.randint(0, 2)):
-            mt = self.template(True, 1) if self.r.random() < 0.15 else None
+            mt = self.template(True, 1, tparams) if self.r.random() < 0.15 else None
             tp = tparams + (tuple(p for p, _ in mt[1]) if mt else ())
             members.append(('static', mt, self.ret(tp), self.pick(METHOD_NAMES), self.args(tp)))
         for _ in range(self.r.randint(0, 2)):
@@ -404,3 +414,113 @@ def canon_expected(module):
             return ('enum', d[1], None, d[3])
         return d
     return tuple(cd(d) for d in module)
+
+
+# ---------------------------------------------------------------- sanitizer: avoid the triggers of known findings
+PARAM_RENAME = {'T': 'QA', 'U': 'QB', 'TT': 'QC', 'ARG': 'QD', 'POSE': 'QE'}
+
+
+def sanitize(module):
+    """an equivalent-looking module outside the characterising predicates of the known findings
+    (see props/pybind_scope.known_predicates); used for the clean half of the bounded scopes"""
+    from . import reference as R
+
+    def ren_type(t, params, depth=0, this_ok=True):
+        _, const, ns, name, targs, mark = t
+        if ns and (ns[0] in params or 'This' in ns):
+            return T(PARAM_RENAME.get(ns[0], ns[0]) if ns[0] in params else 'double', (), (), const, mark) if ns[0] in params else T('double', (), (), const, mark)
+        if not ns and name in params:
+            if depth >= 2:
+                return T('double', (), (), const, mark)
+            return T(PARAM_RENAME.get(name, name), (), (), const, mark)
+        if not ns and name == 'This' and depth >= 1:
+            return T('double', (), (), const, mark)
+        return ('T', const, ns, name, tuple(ren_type(a, params, depth + 1) for a in targs), mark)
+
+    def ren_ret(r, params):
+        if r[0] == 'P':
+            return ('P', ren_type(r[1], params), ren_type(r[2], params))
+        return ren_type(r, params)
+
+    def ren_args(args, params):
+        return tuple(('A', ren_type(a[1], params), a[2], a[3]) for a in args)
+
+    def ren_tpl(tpl, plain_lists=False):
+        if tpl is None:
+            return None
+        out = []
+        for p, insts in tpl[1]:
+            if insts is not None:
+                seen = set()
+                keep = []
+                for i in insts:
+                    if plain_lists and i[4]:
+                        i = T(i[3], i[2])
+                    if R.iname(i) not in seen:
+                        seen.add(R.iname(i))
+                        keep.append(i)
+                insts = tuple(keep)
+            out.append((PARAM_RENAME.get(p, p), insts))
+        return ('TPL', tuple(out))
+
+    def name_ok(n):
+        return {'async': 'asyncs', 'await': 'awaits'}.get(n, n)
+
+    def decl(d, path, siblings):
+        k = d[0]
+        if k == 'ns':
+            nm = d[1]
+            while nm in siblings:
+                nm = nm + 'b'
+            siblings.add(nm)
+            inner = set()
+            return ('ns', nm, tuple(x for x in (decl(c, path + (nm,), inner) for c in d[2]) if x is not None))
+        if k == 'class':
+            _, tpl, virt, name, base, members = d
+            cparams = {p for p, _ in tpl[1]} if tpl else set()
+            ms = []
+            for m in members:
+                if m[0] == 'ctor':
+                    mp = cparams | ({p for p, _ in m[1][1]} if m[1] else set())
+                    ms.append(('ctor', ren_tpl(m[1]), m[2], ren_args(m[3], mp)))
+                elif m[0] in ('method', 'static'):
+                    mp = cparams | ({p for p, _ in m[1][1]} if m[1] else set())
+                    rest = (m[5],) if m[0] == 'method' else ()
+                    ms.append((m[0], ren_tpl(m[1]), ren_ret(m[2], mp), name_ok(m[3]), ren_args(m[4], mp)) + rest)
+                elif m[0] == 'prop':
+                    ms.append(('prop', ren_type(m[1], cparams), m[2], m[3]))
+                elif m[0] == 'op':
+                    if m[2] == '==':
+                        continue
+                    ms.append(m)
+                else:
+                    ms.append(m)
+            b = ren_type(base, cparams) if base is not None else None
+            return ('class', ren_tpl(tpl), virt, name, b, tuple(ms))
+        if k == 'func':
+            fp = {p for p, _ in d[1][1]} if d[1] else set()
+            return ('func', ren_tpl(d[1], plain_lists=True), ren_ret(d[2], fp), name_ok(d[3]), ren_args(d[4], fp))
+        if k == 'var':
+            return ('var', d[1], d[2], None if path else d[3])
+        if k == 'typedef':
+            return d
+        return d
+
+    top = set()
+    out = tuple(x for x in (decl(d, (), top) for d in module) if x is not None)
+
+    def fix_typedefs(decls, path):
+        res = []
+        for d in decls:
+            if d[0] == 'ns':
+                res.append(('ns', d[1], fix_typedefs(d[2], path + (d[1],))))
+            elif d[0] == 'typedef':
+                target, tns = R.find_template(out, d[1][2], d[1][3])
+                if target is None or target[0] != 'class' or target[1] is None or len(target[1][1]) != len(d[1][4]) \
+                        or tuple(d[1][2]) != path:
+                    continue
+                res.append(d)
+            else:
+                res.append(d)
+        return tuple(res)
+    return fix_typedefs(out, ())
